@@ -196,6 +196,8 @@ def show(n, depth=0):
         if b == 'this':
             return n.get('n') or '?'
         return b + ('->' if n.get('arrow') else '.') + (n.get('n') or '?')
+    if k == 'SubstNonTypeTemplateParmExpr':
+        return n.get('n') or show(c[0], d)
     if k in ('IntegerLiteral', 'CXXBoolLiteralExpr', 'FloatingLiteral', 'CharacterLiteral'):
         return str(n.get('v'))
     if k == 'StringLiteral':
